@@ -135,4 +135,106 @@ theorem mergeMsg_sorted (S : Schema) (mi : Nat) (a b : Msg) (ha : a.fields.Sorte
   rw [mergeMsg_mk]
   exact sorted_mergeFields S _ _ _ ha
 
+/-! ### merging into the empty message: `clone m = m` -/
+
+mutual
+/-- `mergeMsg empty m = m` for every populated well-formed message stored in ascending field order
+(`sortedMsg`: the order in which the decoder and `Fields.set` build messages) -/
+theorem clone_eq_self (S : Schema) : ∀ (m : Msg) (mi : Nat), pwfMsg S mi m = true → sortedMsg m = true →
+    clone S mi m = m
+  | .mk fs unk, mi, hw, hs => by
+    rw [pwfMsg] at hw
+    rw [sortedMsg, Bool.and_eq_true] at hs
+    unfold clone
+    rw [Msg.empty, mergeMsg_mk, List.nil_append]
+    congr 1
+    apply Fields.ext_sorted (sorted_mergeFields S _ fs .nil Fields.sorted_nil) (ascNums_pairwise hs.1)
+    intro j
+    rw [get?_cloneFields S _ fs hw j]
+    cases hg : fs.get? j with
+    | none => rfl
+    | some fv =>
+      obtain ⟨f, hf, _⟩ := pwfFields_get hw hg
+      simp only [hf]
+      rw [cloneFields_eq S fs _ hw hs.2 j fv f hg hf]
+theorem cloneFields_eq (S : Schema) : ∀ (fs : Fields) (d : MsgD), pwfFields S d fs = true →
+    sortedFields fs = true → ∀ j fv f, fs.get? j = some fv → d.find j = some f → cloneFVal S f fv = fv
+  | .nil, _, _, _, _, _, _, hg, _ => by simp [Fields.get?] at hg
+  | .cons n x tl, d, hw, hs, j, fv, f, hg, hf => by
+    rw [pwfFields, Bool.and_eq_true, Bool.and_eq_true, Bool.and_eq_true] at hw
+    rw [sortedFields, Bool.and_eq_true] at hs
+    rw [Fields.get?_cons] at hg
+    split at hg
+    · rename_i hn
+      subst hn
+      cases hg
+      have h1 := hw.1.1.1
+      rw [hf] at h1
+      exact cloneFVal_eq S x f h1 hs.1
+    · exact cloneFields_eq S tl d hw.2 hs.2 j fv f hg hf
+theorem cloneFVal_eq (S : Schema) : ∀ (fv : FVal) (f : Field), pwfFVal S f fv = true →
+    sortedFVal fv = true → cloneFVal S f fv = fv
+  | .one (.msg sm), f, hw, hs => by
+    rw [pwfFVal, Bool.and_eq_true, pwfVal] at hw
+    rw [sortedFVal, sortedVal] at hs
+    rw [cloneFVal, clone_eq_self S sm f.sub hw.1 hs]
+  | .one (.num n), f, _, _ => by rw [cloneFVal]; intro sm h; cases h
+  | .one (.bytes b), f, _, _ => by rw [cloneFVal]; intro sm h; cases h
+  | .many vs, f, hw, hs => by
+    rw [pwfFVal, Bool.and_eq_true] at hw
+    rw [sortedFVal] at hs
+    rw [cloneFVal]
+    by_cases hm : f.card = .map
+    · simp only [hm, if_true] at hw ⊢
+      rw [mergeMapVals_eq_append S f.sub vs .nil (entriesOK_of_pwf hw.2)
+        (cloneEntries_eq S vs f.sub hw.2 hs) (fun _ _ _ => rfl), Vals.nil_append]
+    · simp only [hm, if_false] at hw ⊢
+      rw [cloneVals_eq S vs f hw.2 hs]
+theorem cloneVals_eq (S : Schema) : ∀ (vs : Vals) (f : Field), pwfVals S f vs = true →
+    sortedVals vs = true → cloneVals S f vs = vs
+  | .nil, _, _, _ => by rw [cloneVals]
+  | .cons (.msg m) tl, f, hw, hs => by
+    rw [pwfVals, Bool.and_eq_true, pwfVal] at hw
+    rw [sortedVals, Bool.and_eq_true, sortedVal] at hs
+    rw [cloneVals, cloneVal]
+    have : mergeMsg S f.sub Msg.empty m = m := clone_eq_self S m f.sub hw.1 hs.1
+    rw [this, cloneVals_eq S tl f hw.2 hs.2]
+  | .cons (.num n) tl, f, hw, hs => by
+    rw [pwfVals, Bool.and_eq_true] at hw
+    rw [sortedVals, Bool.and_eq_true] at hs
+    rw [cloneVals, cloneVal, cloneVals_eq S tl f hw.2 hs.2]
+    intro m h; cases h
+  | .cons (.bytes b) tl, f, hw, hs => by
+    rw [pwfVals, Bool.and_eq_true] at hw
+    rw [sortedVals, Bool.and_eq_true] at hs
+    rw [cloneVals, cloneVal, cloneVals_eq S tl f hw.2 hs.2]
+    intro m h; cases h
+theorem cloneEntries_eq (S : Schema) : ∀ (vs : Vals) (ei : Nat), pwfEntries S ei vs = true →
+    sortedVals vs = true → ∀ e, Val.msg e ∈ vs.toList → clone S ei e = e
+  | .nil, _, _, _, _, he => by simp [Vals.toList] at he
+  | .cons (.msg e0) tl, ei, hw, hs, e, he => by
+    obtain ⟨e', k, hv, _, _, _, hwe, htl⟩ := pwfEntries_cons_msg hw
+    cases hv
+    rw [sortedVals, Bool.and_eq_true, sortedVal] at hs
+    simp only [Vals.toList, List.mem_cons, Val.msg.injEq] at he
+    rcases he with rfl | he
+    · exact clone_eq_self S e ei hwe hs.1
+    · exact cloneEntries_eq S tl ei htl hs.2 e he
+  | .cons (.num n) tl, _, hw, _, _, _ => by
+    obtain ⟨e', _, hv, _⟩ := pwfEntries_cons_msg hw
+    cases hv
+  | .cons (.bytes b) tl, _, hw, _, _, _ => by
+    obtain ⟨e', _, hv, _⟩ := pwfEntries_cons_msg hw
+    cases hv
+end
+
+/-- `mergeMsg empty m = m` -/
+theorem merge_empty_left_eq (S : Schema) (mi : Nat) (m : Msg) (hw : pwfMsg S mi m = true)
+    (hs : sortedMsg m = true) : mergeMsg S mi Msg.empty m = m := clone_eq_self S m mi hw hs
+
+/-- the clone of the example message (stored out of order) is its sorted form, and cloning that is
+the identity -/
+example : pwfMsg Ex.S0 0 (clone Ex.S0 0 Ex.m0) = true ∧ sortedMsg (clone Ex.S0 0 Ex.m0) = true ∧
+    sortedMsg Ex.m0 = false := by decide
+
 end C07
